@@ -31,7 +31,7 @@ func VerifC02_Loop() {
 	conf := vConf("p", nil)
 	conf.RestartPolicy = types.RestartPolicyConfig{Restart: policy, MaxRestarts: max, BackoffSeconds: backoff}
 	// exit codes of up to 4 attempts: 0 or 3 (choice per attempt); attempt 4 and later run until stopped
-	w.behav["p"] = &vBehav{codes: []int{0, 0, 0, 0}, untilStop: []bool{false, false, false, false, true}}
+	w.behav["p"] = &vBehav{codes: []int{0, 0, 0, 0}, untilStop: []bool{false, false, false, false, true}, runSecs: 3 * verifChooseK("run.seconds", 2)}
 	for k := 0; k < 4; k++ {
 		w.behav["p"].codes[k] = 3 * verifChooseK("code:p#"+string(rune('0'+k)), 2)
 	}
